@@ -231,6 +231,9 @@ func (g *grpcClient) NewConn(
 	spec Spec,
 	header http.Header,
 ) StreamingClientConn {
+	// For unary calls the header map belongs to the caller's Request, which may
+	// be reused: never resend the timeout of an earlier call.
+	header.Del(grpcHeaderTimeout)
 	if deadline, ok := ctx.Deadline(); ok {
 		if encodedDeadline, err := grpcEncodeTimeout(time.Until(deadline)); err == nil {
 			// Tests verify that the error in encodeTimeout is unreachable, so we
